@@ -79,6 +79,22 @@ Definition can_refresh (cfg : config) (granted : list string) (cl : client) : bo
   (match cf_refresh_scopes cfg with [] => true | sc => args_has_one_of granted sc end)
   && args_has (cl_grants cl) ["refresh_token"].
 
+(* mint an access token (and a refresh token), store the sessions under their signatures and hand
+   them out: GenerateAccessToken / GenerateRefreshToken / CreateAccessTokenSession /
+   CreateRefreshTokenSession of the issuing handlers *)
+Definition grant_tokens (s : state) (stored : req) (with_rt : bool) : state * list ckind :=
+  let (ka, s2) := mint s KAccess (r_id stored) in
+  if with_rt then
+    let (kr, s3) := mint s2 KRefresh (r_id stored) in
+    (log_add (set_store s3 (create_refresh (create_access (st s3) ka stored) kr stored))
+       [{| i_kind := KAccess; i_key := ka; i_rid := r_id stored; i_endpoint_token := true |};
+        {| i_kind := KRefresh; i_key := kr; i_rid := r_id stored; i_endpoint_token := true |}],
+     [KAccess; KRefresh])
+  else
+    (log_add (set_store s2 (create_access (st s2) ka stored))
+       [{| i_kind := KAccess; i_key := ka; i_rid := r_id stored; i_endpoint_token := true |}],
+     [KAccess]).
+
 (* ------------------------------------------------------------------ PKCE (handler/pkce/handler.go) *)
 Definition pkce_no_pkce (cfg : config) (cl : client) : option string :=
   if cf_pkce_enforce cfg then Some "invalid_request"
@@ -138,8 +154,8 @@ Definition authorize (cfg : config) (s : state) (a : authz) : state * obs :=
       else if negb (aud_ok cfg (cl_aud cl) (az_aud a)) then fail s "invalid_request"
       else
         (* AuthorizeExplicitGrantHandler.HandleAuthorizeEndpointRequest + IssueAuthorizeCode *)
-        let (k, s1) := mint s in
-        let (rid, s2) := fresh_rid s1 in
+        let (rid, s1) := fresh_rid s in
+        let (k, s2) := mint s1 KCode rid in
         let se := {| s_subject := az_subject a; s_exp_code := Some (now s + cf_life_code cfg)%Z;
                      s_exp_at := None; s_exp_rt := None |} in
         let r := {| r_id := rid; r_client := az_client a; r_cl := cl; r_rscopes := az_scopes a; r_gscopes := az_granted a;
@@ -173,8 +189,10 @@ Definition redeem (cfg : config) (s : state) (auth : option nat) (code : pres) (
       (* AuthorizeExplicitGrantHandler.HandleTokenEndpointRequest *)
       if negb (args_has (cl_grants cl) ["authorization_code"]) then fail s "unauthorized_client"
       else
-      let key := key_of s code in
-      match find (codes (st s)) key with
+      match key_of s code with
+      | None => fail s "invalid_grant"
+      | Some k =>
+      match codes (st s) k with
       | None => fail s "invalid_grant"
       | Some (false, r) =>
           (* replay: revoke the tokens of the request id *)
@@ -188,33 +206,21 @@ Definition redeem (cfg : config) (s : state) (auth : option nat) (code : pres) (
           else
             let se := set_token_expiries cfg (now s) (r_sess r) in
             (* pkce.Handler.HandleTokenEndpointRequest *)
-            match pkce_token cfg s cl key verifier verifier_s256 with
+            match pkce_token cfg s cl (Some k) verifier verifier_s256 with
             | (s1, Some e) => fail s1 e
             | (s1, None) =>
                 (* NewAccessResponse -> AuthorizeExplicitGrantHandler.PopulateTokenEndpointResponse *)
                 if expired (s_exp_code se) (now s1) (cf_life_code cfg) (now s1) then fail s1 "invalid_request"
                 else
-                  let (ka, s2) := mint s1 in
                   let stored := {| r_id := r_id r; r_client := c; r_cl := cl; r_rscopes := r_rscopes r; r_gscopes := r_gscopes r;
                                    r_raud := r_raud r; r_gaud := r_gaud r; r_sess := se; r_redirect := "";
                                    r_challenge := ""; r_method := ""; r_at := now s |} in
-                  if can_refresh cfg (r_gscopes r) (r_cl r) then
-                    let (kr, s3) := mint s2 in
-                    let st1 := fst (invalidate_code (st s3) (match key with Some k => k | None => 0 end)) in
-                    let st2 := create_access st1 ka stored in
-                    let st3 := create_refresh st2 kr stored in
-                    (log_add (set_store s3 st3)
-                       [{| i_kind := KAccess; i_key := ka; i_rid := r_id r; i_endpoint_token := true |};
-                        {| i_kind := KRefresh; i_key := kr; i_rid := r_id r; i_endpoint_token := true |}],
-                     ok_obs [KAccess; KRefresh] (expires_in se cfg (now s)) (r_gscopes r))
-                  else
-                    let st1 := fst (invalidate_code (st s2) (match key with Some k => k | None => 0 end)) in
-                    let st2 := create_access st1 ka stored in
-                    (log_add (set_store s2 st2)
-                       [{| i_kind := KAccess; i_key := ka; i_rid := r_id r; i_endpoint_token := true |}],
-                     ok_obs [KAccess] (expires_in se cfg (now s)) (r_gscopes r))
+                  (* InvalidateAuthorizeCodeSession, then the token sessions (minting touches no table) *)
+                  let s2 := set_store s1 (fst (invalidate_code (st s1) k)) in
+                  let (s3, minted) := grant_tokens s2 stored (can_refresh cfg (r_gscopes r) (r_cl r)) in
+                  (s3, ok_obs minted (expires_in se cfg (now s)) (r_gscopes r))
             end
-      end
+      end end
   end end.
 
 (* ------------------------------------------------------------------ token endpoint: refresh_token *)
@@ -248,18 +254,12 @@ Definition refresh_flow (cfg : config) (s : state) (auth : option nat) (tok : pr
             let stored := {| r_id := r_id r; r_client := c; r_cl := cl; r_rscopes := r_rscopes r; r_gscopes := r_gscopes r;
                              r_raud := r_raud r; r_gaud := r_gaud r; r_sess := se; r_redirect := "";
                              r_challenge := ""; r_method := ""; r_at := now s |} in
-            (* PopulateTokenEndpointResponse *)
-            let (ka, s1) := mint s in
-            let (kr, s2) := mint s1 in
-            match rotate_refresh (st s2) (r_id r) with
-            | (st1, Some _) => fail (set_store s2 st1) "invalid_request"
+            (* PopulateTokenEndpointResponse: RotateRefreshToken, then the new sessions *)
+            match rotate_refresh (st s) (r_id r) with
+            | (st1, Some _) => fail (set_store s st1) "invalid_request"
             | (st1, None) =>
-                let st2 := create_access st1 ka stored in
-                let st3 := create_refresh st2 kr stored in
-                (log_add (set_store s2 st3)
-                   [{| i_kind := KAccess; i_key := ka; i_rid := r_id r; i_endpoint_token := true |};
-                    {| i_kind := KRefresh; i_key := kr; i_rid := r_id r; i_endpoint_token := true |}],
-                 ok_obs [KAccess; KRefresh] (expires_in se cfg (now s)) (r_gscopes r))
+                let (s3, minted) := grant_tokens (set_store s st1) stored true in
+                (s3, ok_obs minted (expires_in se cfg (now s)) (r_gscopes r))
             end
       | _, _ => fail s "invalid_grant"
       end
